@@ -26,7 +26,7 @@ def negArg : Term → Term
 
 /-- the literals that `enc` negates (a superset: the `not` rule is listed also when it answers a constant) -/
 def negCalls (E : Env) : Term → List Term
-  | .node op args _ =>
+  | .node op args p =>
     match op, args with
     | .and, [a] => negCalls E a
     | .and, as => as.map (fun a => (enc E a).1) ++ (as.map (negCalls E)).flatten
@@ -36,7 +36,8 @@ def negCalls (E : Env) : Term → List Term
     | .implies, [a, b] => (enc E a).1 :: (enc E b).1 :: (negCalls E a ++ negCalls E b)
     | .iff, [a, b] => (enc E a).1 :: (enc E b).1 :: (negCalls E a ++ negCalls E b)
     | .ite, [i, th, el] =>
-      (enc E i).1 :: (enc E th).1 :: (enc E el).1 :: (negCalls E i ++ negCalls E th ++ negCalls E el)
+      if ph (.node .ite [i, th, el] p) then []
+      else (enc E i).1 :: (enc E th).1 :: (enc E el).1 :: (negCalls E i ++ negCalls E th ++ negCalls E el)
     | _, _ => []
 
 /-- every term on which the simplifier is applied by `CNF.convert` / `PolCNF.convert` on `t` -/
@@ -144,6 +145,9 @@ theorem enc_congr (E₁ E₂ : Env) (hkey : E₁.key = E₂.key) :
     · next i th el =>
       rw [negCalls.eq_def] at hag
       simp only at hag
+      by_cases hph : ph (Term.node .ite [i, th, el] p) = true
+      · rw [enc_ite]; simp only [hph, if_true]
+      simp only [hph, if_false] at hag
       have hi := ih i (by simp) (hag.mono (fun l hl => by simp [hl]))
       have ht := ih th (by simp) (hag.mono (fun l hl => by simp [hl]))
       have he := ih el (by simp) (hag.mono (fun l hl => by simp [hl]))
@@ -226,6 +230,9 @@ theorem encP_congr (E₁ E₂ : Env) (hkey : E₁.key = E₂.key) :
     · next i th el =>
       rw [negCalls.eq_def] at hag
       simp only at hag
+      by_cases hph : ph (Term.node .ite [i, th, el] p) = true
+      · simp only [hph, if_true]
+      simp only [hph, if_false] at hag
       have hi := ih i (by simp) (hag.mono (fun l hl => by simp [hl]))
       have ht := ih th (by simp) (hag.mono (fun l hl => by simp [hl]))
       have he := ih el (by simp) (hag.mono (fun l hl => by simp [hl]))
@@ -310,7 +317,7 @@ theorem pol_convert_simpOn (key : Term → Sym) (t : Term) :
   rw [← henc, finish_congr _ ⟨key, simp⟩ _ _ hneg.symm]
 
 theorem keysFresh_simpOn {key : Term → Sym} {u : Sym → Option Term} {t : Term} {σ : Term → Term}
-    (h : KeysFresh ⟨key, simp⟩ u t) : KeysFresh ⟨key, σ⟩ u t := ⟨h.inv, h.fresh⟩
+    (h : KeysFresh ⟨key, simp⟩ u t) : KeysFresh ⟨key, σ⟩ u t := ⟨h.inv, h.fresh, h.bool⟩
 
 /-! ## the theorems for the real simplifier -/
 
@@ -323,9 +330,10 @@ theorem cnf_sound_simp (key : Term → Sym) (u : Sym → Option Term) (t : Term)
 theorem cnf_complete_simp (key : Term → Sym) (u : Sym → Option Term) (t : Term) (I : Interp) (R : List Clause)
     (hkeys : KeysFresh ⟨key, simp⟩ u t) (hI : I.WF) (hside : SimpSide key t I)
     (hR : CNF.convert ⟨key, simp⟩ t = some R) (ht : eval I t = .b true) :
-    eval (ext u I) (formulaOf R) = .b true ∧ SameOn t I (ext u I) :=
-  cnf_complete ⟨key, simpOn (simpArgs key t)⟩ u t I R (keysFresh_simpOn hkeys)
+    eval (ext u I) (formulaOf R) = .b true ∧ SameOn t I (ext u I) ∧ (ext u I).WF :=
+  have h := cnf_complete ⟨key, simpOn (simpArgs key t)⟩ u t I R (keysFresh_simpOn hkeys)
     (simpSound_simpOn key t I hI hside) (by rw [cnf_convert_simpOn]; exact hR) ht
+  ⟨h.1, h.2.1, h.2.2 hI⟩
 
 theorem polCnf_sound_simp (key : Term → Sym) (u : Sym → Option Term) (t : Term) (J : Interp) (R : List Clause)
     (hkeys : KeysFresh ⟨key, simp⟩ u t) (hJ : J.WF) (hside : SimpSide key t J)
@@ -336,9 +344,10 @@ theorem polCnf_sound_simp (key : Term → Sym) (u : Sym → Option Term) (t : Te
 theorem polCnf_complete_simp (key : Term → Sym) (u : Sym → Option Term) (t : Term) (I : Interp) (R : List Clause)
     (hkeys : KeysFresh ⟨key, simp⟩ u t) (hI : I.WF) (hside : SimpSide key t I)
     (hR : PolCNF.convert ⟨key, simp⟩ t = some R) (ht : eval I t = .b true) :
-    eval (ext u I) (formulaOf R) = .b true ∧ SameOn t I (ext u I) :=
-  polCnf_complete ⟨key, simpOn (simpArgs key t)⟩ u t I R (keysFresh_simpOn hkeys)
+    eval (ext u I) (formulaOf R) = .b true ∧ SameOn t I (ext u I) ∧ (ext u I).WF :=
+  have h := polCnf_complete ⟨key, simpOn (simpArgs key t)⟩ u t I R (keysFresh_simpOn hkeys)
     (simpSound_simpOn key t I hI hside) (by rw [pol_convert_simpOn]; exact hR) ht
+  ⟨h.1, h.2.1, h.2.2 hI⟩
 
 /-- shape: follows when, in addition, every atom (or constant) handed to the simplifier simplifies to a
 literal or a constant — which fails exactly in the situation of the known finding F51 -/
@@ -354,15 +363,18 @@ theorem simpShape_simpOn (key : Term → Sym) (t : Term) (h : ShapeSide key t) :
     · exact Or.inl (isLitS_of_atom hx)
     · exact Or.inr hx
 
-theorem cnf_shape_simp (key : Term → Sym) (t : Term) (hwf : t.wf = true) (hside : ShapeSide key t)
-    (R : List Clause) (hR : CNF.convert ⟨key, simp⟩ t = some R) : shapeClauses R = true :=
-  cnf_shape ⟨key, simpOn (simpArgs key t)⟩ (simpShape_simpOn key t hside) t hwf R
+theorem cnf_shape_simp (key : Term → Sym) (hkb : ∀ h, (key h).params = [] ∧ (key h).ret = .bool) (t : Term)
+    (hwf : t.wf = true) (hty : t.typeOf = some .bool) (hside : ShapeSide key t)
+    (R : List Clause) (hR : CNF.convert ⟨key, simp⟩ t = some R) :
+    shapeClauses R = true ∧ shapeFormula (formulaOf R) = true :=
+  cnf_shape ⟨key, simpOn (simpArgs key t)⟩ (simpShape_simpOn key t hside) hkb t hwf hty R
     (by rw [cnf_convert_simpOn]; exact hR)
 
-theorem polCnf_shape_simp (key : Term → Sym) (t : Term) (hwf : t.wf = true) (hqf : t.isQF = true)
+theorem polCnf_shape_simp (key : Term → Sym) (hkb : ∀ h, (key h).params = [] ∧ (key h).ret = .bool) (t : Term)
+    (hwf : t.wf = true) (hqf : t.isQF = true) (hty : t.typeOf = some .bool)
     (hside : ShapeSide key t) (R : List Clause) (hR : PolCNF.convert ⟨key, simp⟩ t = some R) :
-    shapeClauses R = true :=
-  polCnf_shape ⟨key, simpOn (simpArgs key t)⟩ (simpShape_simpOn key t hside) t hwf hqf R
+    shapeClauses R = true ∧ shapeFormula (formulaOf R) = true :=
+  polCnf_shape ⟨key, simpOn (simpArgs key t)⟩ (simpShape_simpOn key t hside) hkb t hwf hqf hty R
     (by rw [pol_convert_simpOn]; exact hR)
 
 end PySMT.C11.Proofs
